@@ -55,10 +55,18 @@ impl<T> VIter<T> {
     #[verifier::external_body]
     pub fn chain(self, other: VIter<T>) -> (r: VIter<T>) ensures r@ == self@ + other@ { unimplemented!() }
 
-    // Iterator::collect::<Vec<_>>()
-    #[verifier::external_body]
-    pub fn collect(self) -> (r: Vec<T>) ensures r@ == self@ { unimplemented!() }
+    // Iterator::collect::<B>() for the collections below (FromIterator keeps the items in order)
+    pub fn collect<B: VxFromIter<T>>(self) -> (r: B) ensures r.vx_items() == self@ { B::vx_from_iter(self) }
 }
+pub trait VxFromIter<T>: Sized {
+    spec fn vx_items(&self) -> Seq<T>;
+    fn vx_from_iter(it: VIter<T>) -> (r: Self) ensures r.vx_items() == it@;
+}
+impl<T> VxFromIter<T> for Vec<T> {
+    open spec fn vx_items(&self) -> Seq<T> { self@ }
+    #[verifier::external_body] fn vx_from_iter(it: VIter<T>) -> (r: Self) { unimplemented!() }
+}
+pub open spec fn derefs<'a, T>(s: Seq<&'a T>) -> Seq<T> { Seq::new(s.len(), |i: int| *s[i]) }
 
 // Either::Left(it) / Either::Right(it) of two iterator types with the same Item: iterates exactly like `it`
 pub fn vx_either<T>(it: VIter<T>) -> (r: VIter<T>) ensures r@ == it@ { it }
